@@ -42,7 +42,14 @@ def _events(args):
             par = chunk_parent(root, *w) if w else None
             for kind in ("tx", "feat"):
                 if kind == "tx":
-                    obj = mk_tx(blocks, st, cds, root, parent=par, transcript_symbol="sym1", sequence_name="chr")
+                    # the annotated start frame (0 / 1 / 2) is no part of a BED record: thick bounds = CDS bounds
+                    frames = None
+                    if cds:
+                        from bcverif.props.c05 import _consistent_frames
+
+                        frames = list(_consistent_frames(cds, st, rnd.choice([0, 1, 2])))
+                    obj = mk_tx(blocks, st, cds, root, frames=frames, parent=par, transcript_symbol="sym1",
+                                sequence_name="chr")
                     nm = rnd.choice(["transcript_symbol", "literal name", "transcript_id"])
                     want = {"transcript_symbol": "sym1", "literal name": "literal name", "transcript_id": "None"}[nm]
                 else:
